@@ -7,6 +7,7 @@ package zzselftest
 
 import (
 	"context"
+	"fmt"
 	"strings"
 )
 
@@ -126,4 +127,26 @@ func acc(n int) int {
 		s += 2
 	}
 	return s
+}
+
+// 12. a contract-less helper returning an error is inlined with its returns correlated to its branches.
+func helperErr(n int) error {
+	if n < 10 {
+		return fmt.Errorf("too small: %d: %w", n, errSentinel)
+	}
+	if n > 100 {
+		return fmt.Errorf("too large: %d", n)
+	}
+
+	return nil
+}
+
+var errSentinel = fmt.Errorf("sentinel")
+
+func useHelper(n int) bool {
+	if err := helperErr(n); err != nil {
+		return false
+	}
+
+	return true
 }
